@@ -5,7 +5,7 @@
 From Coq Require Import List NArith Bool.
 Import ListNotations.
 Require Import Verif.Lib.Wire Verif.Lib.PathNorm Verif.Lib.Utf8 Verif.Gen.Facts_C01 Verif.Model.C01 Verif.Proofs.C01
-  Verif.Proofs.C01_b.
+  Verif.Proofs.C01_b Verif.Gen.Prog_C01 Verif.Proofs.C01_gen.
 Local Close Scope N_scope.
 Local Open Scope nat_scope.
 
@@ -239,3 +239,76 @@ Theorem C01_history_spec_m : forall O ds steps m sts l,
                 | ONone => SNone | OConfigError => SNothing end) l.
 Proof. exact history_spec_m. Qed.
 Print Assumptions C01_history_spec_m.
+
+(* ---- fourth round: the program REGENERATED from the source on THIS run (Gen/Prog_C01.v, written by
+   harness/c01/translate.py) is the reference model; every theorem with suffix _generated is
+   literally about the regenerated program *)
+Theorem C01_generated_call_is_model : forall mt m method raw,
+  obs_call (gen_call mt m method raw) = obs_call (dispatch_request_with mt m method raw).
+Proof. exact gen_call_is_model. Qed.
+Print Assumptions C01_generated_call_is_model.
+
+Theorem C01_generated_connect_is_model : forall parse m id d,
+  gen_connect parse m id d = connect_with parse m id d.
+Proof. exact gen_connect_is_model. Qed.
+Print Assumptions C01_generated_connect_is_model.
+
+Theorem C01_generated_route_init_is_model : forall parse id name pattern preds,
+  gen_route_init parse id name pattern preds = route_init_model parse id name pattern preds.
+Proof. exact gen_route_init_is_model. Qed.
+Print Assumptions C01_generated_route_init_is_model.
+
+Theorem C01_generated_split_path_info_is_model : forall p, gen_split_path_info p = split_path_info p.
+Proof. exact gen_split_path_info_is_model. Qed.
+Print Assumptions C01_generated_split_path_info_is_model.
+
+(* the matcher closure of _compile_route: every call builds its own dictionary from the items
+   of m.groupdict(), the remainder split into normalised segments (a function of its arguments:
+   no state survives a call) *)
+Theorem C01_generated_matcher_is_model : forall groups rem path,
+  gen_matcher groups rem path = matcher_model groups rem path.
+Proof. exact gen_matcher_is_model. Qed.
+Print Assumptions C01_generated_matcher_is_model.
+
+Theorem C01_generated_decode_path_info_is_model : forall p, gen_decode_path_info p = decode_path_info_model p.
+Proof. exact gen_decode_path_info_is_model. Qed.
+Print Assumptions C01_generated_decode_path_info_is_model.
+
+Theorem C01_request_spec_generated : forall O ds method raw m sts,
+  sup_with (spec_parse_m O) ds = true ->
+  connect_all_f (gen_connect (parse_pattern_m O)) empty_mapper 0 ds = (m, sts) ->
+  spec_request_m O ds method raw = spec_of_outcome (fst (gen_call (match_pat_m O) m method raw)).
+Proof. exact gen_request_spec_m. Qed.
+Print Assumptions C01_request_spec_generated.
+
+Theorem C01_dispatch_first_generated : forall mt m method raw r d,
+  fst (gen_call mt m method raw) = OMatch r d ->
+  exists path pre post, request_path raw = RPath path /\ routelist m = pre ++ r :: post
+    /\ Forall (fun r' => qual mt method path r' = false) pre
+    /\ mt (r_pat r) path = Some d /\ forallb (pred_ok method d) (r_preds r) = true.
+Proof. exact gen_dispatch_first. Qed.
+Print Assumptions C01_dispatch_first_generated.
+
+Theorem C01_connect_last_wins_generated : forall parse ds m sts,
+  connect_all_f (gen_connect parse) empty_mapper 0 ds = (m, sts) ->
+  map is_ok sts = map (parses_b parse) (number 0 ds)
+  /\ routelist m = map (mkr_w parse) (filter (good parse) (last_wins (number 0 ds))).
+Proof. exact gen_connect_last_wins. Qed.
+Print Assumptions C01_connect_last_wins_generated.
+
+Theorem C01_invalid_utf8_refused_generated : forall mt m method raw,
+  Utf8.decode raw = None -> obs_call (gen_call mt m method (Some raw)) = (ODecodeError, []).
+Proof. exact gen_invalid_utf8_refused. Qed.
+Print Assumptions C01_invalid_utf8_refused_generated.
+
+Theorem C01_history_spec_generated : forall O ds steps m sts,
+  sup_with (spec_parse_m O) ds = true ->
+  connect_all_f (gen_connect (parse_pattern_m O)) empty_mapper 0 ds = (m, sts) ->
+  spec_hist (spec_parse_m O) (spec_match_m O) ds steps =
+  map (fun s => spec_of_outcome (fst (gen_call (match_pat_m O) m (snd s) (fst s)))) steps.
+Proof. exact gen_history_spec_m. Qed.
+Print Assumptions C01_history_spec_generated.
+
+Theorem C01_split_normal_generated : forall p, Forall normal_seg (gen_split_path_info p).
+Proof. exact gen_split_normal. Qed.
+Print Assumptions C01_split_normal_generated.
